@@ -397,7 +397,8 @@ def _src_contain(case):
         det = a.pop('SRC Details', None) if isinstance(a, dict) else None
         if a != b:
             _bad(out, case, 'other-section-changed', '%s differs from the document without SRC parser (beyond SRC Details)' % k)
-        if beh in ('raise', 'importerror', 'none', 'null', 'empty', 'keyerror') and det is not None:
+        if beh in ('raise', 'importerror', 'none', 'null', 'empty', 'keyerror', 'nan', 'overflow', 'deep', 'hugeint', 'badjson') \
+                and det is not None:
             _bad(out, case, 'src-details-from-failed-parser', '%s shows SRC Details %r although the parser %s' % (k, det, beh))
         if beh == 'obj' and k in ('Primary SRC', 'Secondary SRC') and not isinstance(det, dict):
             _bad(out, case, 'src-details-missing', '%s lacks SRC Details from a well-behaved parser' % k)
@@ -459,7 +460,8 @@ def run_chunk(chunk):
         for first in range(5):
             for cr in ('B', 'x'):
                 _do(res, {'k': 'src_seq', 'first': first, 'creator': cr}, step=3)
-        for beh in ('obj', 'raise', 'importerror', 'keyerror', 'none', 'null', 'empty', 'absent', 'import-raises'):
+        for beh in ('obj', 'raise', 'importerror', 'keyerror', 'none', 'null', 'empty', 'absent', 'import-raises',
+                        'nan', 'overflow', 'deep', 'hugeint', 'badjson'):   # the last five: text that cannot enter the PEL document
             for cr in ('B', 'x'):
                 _do(res, {'k': 'src_contain', 'beh': beh, 'creator': cr}, step=5)
     return res
